@@ -210,7 +210,10 @@ impl<M: Math, A: MassMatrixAdaptStrategy<M>> AdaptStrategy<M> for GlobalStrategy
                 self.step_size
                     .init(math, options, hamiltonian, &position, rng)?;
             } else {
-                self.step_size.update_stepsize(rng, hamiltonian, false)
+                // With a very short warmup the final step-size window is empty and this
+                // is the last tuning draw: sampling has to start from the averaged step.
+                let is_last = draw + 1 == self.num_tune;
+                self.step_size.update_stepsize(rng, hamiltonian, is_last)
             }
             return Ok(());
         }
